@@ -51,6 +51,11 @@ class InjectedSpawnFailure(RuntimeError):
     pass
 
 
+class InjectedInterrupt(KeyboardInterrupt):
+    """Ctrl-C in the calling thread while it waits for the pool (a BaseException: the
+    library's `except Exception` does not see it; the `with` block still drains the pool)."""
+
+
 # ---------------------------------------------------------------------------
 # fingerprints (shared-write monitor)
 # ---------------------------------------------------------------------------
@@ -154,6 +159,7 @@ class SimContext:
         self.exec_counter = 0
         self.submit_counter = 0
         self.fault_fired: Optional[str] = None
+        self.wait_counter = 0
         self.pools: List[tuple] = []
         self.stats: Counter = Counter()
         self.hazards: List[tuple] = []
@@ -494,6 +500,16 @@ def sim_as_completed(fs, timeout=None):
                 if not progressed:
                     raise SimDeadlock("as_completed waits but nothing is runnable")
             ctx = remaining[0]._pool.ctx
+            fl = ctx.fault
+            if fl and fl["kind"] == "consumer_interrupt" and ctx.fault_fired is None:
+                w = ctx.wait_counter
+                ctx.wait_counter += 1
+                if fl["k"] == w:
+                    # some tasks are done, others queued or running: the caller is interrupted here
+                    ctx.fault_fired = "consumer_interrupt"
+                    p0 = remaining[0]._pool
+                    ctx.log(p0._now, "consumer_interrupt", p0._site(remaining[0]), -1)
+                    raise InjectedInterrupt("interrupted while waiting for the pool")
             extra = ctx.sched.draw(3)
             for _ in range(extra):
                 for pool in _pools_of(remaining):
